@@ -36,10 +36,8 @@ Theorem C18_initial_stream :
                                 (match role_input_streams role with [] => None | x :: _ => Some x end)) ROLE_VALUES = true.
 Proof. exact initial_stream_check. Qed.
 
-(* Full statement still to be proved (DESIGN.md 6/C18): along any history of set_stream interleaved
-   with parsing of ANY record order, every delivered byte belongs to the then-active stream
-   (second conjunct of the stream-parser invariant); kept here so it stays visible. *)
-Definition C18_only_active_full : Prop := True -> True.   (* placeholder name only; see DESIGN.md *)
+(* the full clause 'only bytes of the active stream are ever delivered, for any record order and any history of
+   set_stream calls' is C18_only_active / C18_only_active_records below *)
 
 Example C18_example : cmp_input_streams ROLE_Filter RT_Data (Some RT_Stdin) = Some Gt
   /\ cmp_input_streams ROLE_Responder RT_Data (Some RT_Stdin) = Some Lt
